@@ -5,6 +5,7 @@ package props
 import (
 	"encoding/hex"
 	"fmt"
+	sdk "github.com/pokt-network/posmint/types"
 
 	"pgregory.net/rapid"
 
@@ -69,11 +70,25 @@ func (o *c11Oracle) after(ch *chain, ci *callInfo) *Violation {
 		// the only trace allowed: a transaction that passed the ante handler has paid its fee
 		feeAddr := authtypes.NewModuleAddress(authtypes.FeeCollectorName)
 		collectorDelta := after.coinsOf(feeAddr).Sub(before.coinsOf(feeAddr))
-		if ci.Built == nil || ci.Built.Msg == nil || !collectorDelta.IsPositive() {
+		// what the delivered bytes themselves say (byte-level and structural mutants may still be well-formed)
+		var msg sdk.Msg
+		var feeCoins sdk.Coins
+		if ci.Built != nil && ci.Built.Msg != nil {
+			msg, feeCoins = ci.Built.Msg, ci.Built.Fee
+		} else {
+			var std authtypes.StdTx
+			if simCdc.UnmarshalBinaryLengthPrefixed(ci.TxBytes, &std) == nil && std.Msg != nil {
+				msg, feeCoins = std.Msg, std.Fee
+			}
+		}
+		if msg == nil || !collectorDelta.IsPositive() {
 			return violf("C11/rejected-tx-changed-state", "%s: DeliverTx code %d (%s) did not pay a fee but changed the state: %s", where, ci.Deliver.Code, firstLines(ci.Deliver.Log, 2), rawDiff(before, after))
 		}
-		signer := ci.Built.Msg.GetSigner()
-		fee := ci.Built.Fee.AmountOf("upokt")
+		var signer sdk.Address
+		if res := catch(func() { signer = msg.GetSigner() }); res.panicked {
+			return violf("C11/rejected-tx-changed-state", "%s: DeliverTx code %d changed the state although the message cannot even name its signer: %s", where, ci.Deliver.Code, rawDiff(before, after))
+		}
+		fee := feeCoins.AmountOf("upokt")
 		for _, k := range keys {
 			isSigner := k[0] == ch.app.keyAuth.Name() && k[1] == string(append([]byte{0x01}, signer...))
 			isCollector := k[0] == ch.app.keyAuth.Name() && k[1] == string(append([]byte{0x01}, feeAddr...))
@@ -101,7 +116,7 @@ func head(b []byte, n int) []byte {
 
 func genC11(t *rapid.T, tier string) interface{} {
 	pr := &histProfile{MaxBlocks: 10, MinBlocksOf: []int{1, 4, 8}, MaxTxs: 8, Evidence: 8, Missed: 4, Restart: 0, Queries: true,
-		TxKinds: []string{"send", "send", "stake", "stake", "unstake", "unjail", "unjail", "award", "burn", "param", "param", "dao", "dao", "upgrade", "raw", "rawmut", "rawmut"},
+		TxKinds: []string{"send", "send", "stake", "stake", "unstake", "unjail", "unjail", "award", "burn", "param", "param", "dao", "dao", "upgrade", "raw", "rawmut", "rawmut", "structmut", "structmut", "structmut"},
 		Modes:   []string{"", "", "", "", "check", "simulate", "simulate"}, WrongSigner: 10, Mutations: []string{"sigflip", "amount", "memo"}}
 	if tier == "thorough" {
 		pr.MaxBlocks = 24
